@@ -554,6 +554,9 @@ func TestVerifC14(t *testing.T) {
 	// Final content must be valid.
 	c14ValidateDir(rep, dir, "after-clean-shutdown")
 
+	// --- Part 3: write faults (file-size limit on the server process). -----
+	c14WriteFaults(rep, up, ls)
+
 	// --- Part 2: SIGKILL campaign (no strace). ----------------------------
 	kills := verifkit.Pick(5, 40)
 	for k := 0; k < kills; k++ {
@@ -616,4 +619,121 @@ func c14KillOnce(rep *verifkit.Report, rng *rand.Rand, up *sysUpstream, ls *sysL
 	}
 	rep.Event("restarts_after_kill_ok")
 	in2.Kill()
+}
+
+
+// c14WriteFaults runs the server under a file-size limit (RLIMIT_FSIZE through
+// prlimit), so that every write(2) that would make a file larger than the limit
+// fails with EFBIG - the same situation as a full disk or an exceeded quota.
+// Saves that hit the limit must fail and leave the complete previous version in
+// place; they must never leave a truncated new one.
+func c14WriteFaults(rep *verifkit.Report, up *sysUpstream, ls *sysListServer) {
+	if _, err := os.Stat("/usr/bin/prlimit"); err != nil {
+		rep.Event("write_fault_phase_skipped_no_prlimit")
+
+		return
+	}
+	const limit = 100 * 1024
+	opts := sysConfOpts{UpstreamPort: up.Port, ExtraTop: c14DHCPConf}
+	in, err := sysStart("", opts)
+	if err != nil {
+		rep.Inconcl("write-fault phase start: " + err.Error())
+
+		return
+	}
+	defer os.RemoveAll(in.Dir)
+	// Version 1 of two lists (one well below 256 KiB, one larger) and a small
+	// configuration, stored without any fault.
+	sizes := map[string]int{"/wf-small.txt": 2200, "/wf-large.txt": 9000}
+	for path, n := range sizes {
+		ls.Set(path, c14FilterContent(1, n))
+		if st, b, aerr := in.API("POST", "/control/filtering/add_url", map[string]any{"name": "wf", "url": ls.URL(path), "whitelist": false}); aerr != nil || st != 200 {
+			rep.Inconcl(fmt.Sprintf("write-fault phase add_url: %d %v %s", st, aerr, b))
+			in.Kill()
+
+			return
+		}
+	}
+	if st, _, aerr := in.API("POST", "/control/filtering/set_rules", map[string]any{"rules": []string{"||wf-before.c14.test^"}}); aerr != nil || st != 200 {
+		rep.Inconcl("write-fault phase set_rules failed")
+		in.Kill()
+
+		return
+	}
+	in.Stop(20 * time.Second)
+	before := map[string][]byte{}
+	fs, _ := filepath.Glob(filepath.Join(in.Dir, "data", "filters", "*.txt"))
+	for _, f := range fs {
+		before[f], _ = os.ReadFile(f)
+	}
+	cfgBefore, _ := os.ReadFile(filepath.Join(in.Dir, "AdGuardHome.yaml"))
+	if len(fs) != 2 || c14ValidConfig(cfgBefore) != "" {
+		rep.Inconcl("write-fault phase: initial files not as expected")
+
+		return
+	}
+
+	// Restart under the limit.
+	lopts := opts
+	lopts.Wrapper = []string{"prlimit", fmt.Sprintf("--fsize=%d", limit)}
+	in2, err := sysRestart(in, lopts)
+	if err != nil {
+		rep.Inconcl("write-fault phase restart under limit: " + err.Error())
+
+		return
+	}
+	var stop atomic.Bool
+	var wg sync.WaitGroup
+	wg.Add(1)
+	go c14Reader(rep, in2.Dir, &stop, &wg)
+	// New versions larger than the limit: the downloads must fail.
+	for path, n := range sizes {
+		ls.Set(path, c14FilterContent(2, n))
+	}
+	for round := 0; round < 3; round++ {
+		_, _, _ = in2.API("POST", "/control/filtering/refresh", map[string]any{"whitelist": false})
+		rep.Class("refreshes_under_write_fault")
+		// A configuration larger than the limit: the save must fail.
+		rules := make([]string, 0, 4000)
+		for i := 0; i < 4000; i++ {
+			rules = append(rules, fmt.Sprintf("||wf-%d-%d.c14-padding-padding-padding-padding.test^", round, i))
+		}
+		_, _, _ = in2.API("POST", "/control/filtering/set_rules", map[string]any{"rules": rules})
+		rep.Class("config_saves_under_write_fault")
+	}
+	stop.Store(true)
+	wg.Wait()
+	in2.Stop(20 * time.Second)
+	rep.Eval(true, "write-fault|filters")
+	rep.Eval(true, "write-fault|config")
+	for f, b := range before {
+		now, rerr := os.ReadFile(f)
+		switch {
+		case rerr != nil:
+			rep.Violate("dest-missing:filter:under-write-fault", "a filter file vanished after a refresh that hit a write error", map[string]any{"file": filepath.Base(f)})
+		case c14ValidFilter(now) != "":
+			rep.Violate("incomplete-file:filter:under-write-fault", "after a refresh that hit a write error the filter file is incomplete: "+c14ValidFilter(now),
+				map[string]any{"file": filepath.Base(f), "size_before": len(b), "size_now": len(now), "limit": limit})
+		case string(now) != string(b) && len(now) > limit:
+			rep.Event("filter_replaced_despite_limit")
+		case string(now) == string(b):
+			rep.Event("filter_kept_previous_version_under_write_fault")
+		}
+	}
+	cfgNow, _ := os.ReadFile(filepath.Join(in2.Dir, "AdGuardHome.yaml"))
+	if why := c14ValidConfig(cfgNow); why != "" {
+		rep.Violate("incomplete-file:config:under-write-fault", "after a save that hit a write error the configuration file is incomplete: "+why,
+			map[string]any{"size_before": len(cfgBefore), "size_now": len(cfgNow), "limit": limit})
+	} else if len(cfgNow) <= limit {
+		rep.Event("config_kept_a_complete_version_under_write_fault")
+	}
+	// The server must start again from what is on disk.
+	in3, err := sysRestart(in2, opts)
+	if err != nil {
+		rep.Violate("restart-after-write-fault-failed", "the server did not start from the files left after write errors: "+err.Error(), map[string]any{"log_tail": sysTail(in2.Log(), 2000)})
+
+		return
+	}
+	rep.Event("restart_after_write_faults_ok")
+	in3.Kill()
 }
